@@ -2,13 +2,16 @@ package checks
 
 import (
 	"context"
+	"encoding/json"
 	"errors"
 	"fmt"
 	"hash"
 	"os"
+	"os/exec"
 	"path/filepath"
 	"sync/atomic"
 	"testing"
+	"time"
 
 	"github.com/tonistiigi/fsutil"
 	"github.com/tonistiigi/fsutil/types"
@@ -412,5 +415,191 @@ func c04Check(env *h.Env, c *c04Case) error {
 var _ = context.Background
 
 func TestC04(t *testing.T) {
-	h.Run(t, "C04", genC04, c04Check)
+	r := h.NewRunner("C04")
+	defer r.Finish(t)
+	h.RunWith(t, r, "", genC04, c04Check)
+	if t.Failed() {
+		return
+	}
+	t.Run("sigkill", func(t *testing.T) { h.RunWith(t, r, "sigkill", genC04Kill, c04KillCheck) })
+}
+
+// ---------------------------------------------------------------------------
+// SIGKILL of the receiving process after k packets, then a follow-up transfer
+
+type c04KillCase struct {
+	Tree *h.Tree `json:"tree"`
+	Many int     `json:"many"`
+	Dst  *h.Tree `json:"dst"`
+	Ks   []int   `json:"ks"` // kill positions in permille of the fault-free packet count
+}
+
+func genC04Kill(t *rapid.T) *c04KillCase {
+	c := &c04KillCase{Tree: h.GenTree(t, c04TreeCfg, "t")}
+	if rapid.IntRange(0, 2).Draw(t, "large") == 0 {
+		c.Many = rapid.SampledFrom([]int{40, 150}).Draw(t, "many")
+	}
+	if rapid.Bool().Draw(t, "dirtydst") {
+		d := c.Tree
+		for i := 0; i < rapid.IntRange(1, 3).Draw(t, "nedits"); i++ {
+			d, _ = h.GenEdit(t, d, fmt.Sprintf("e%d", i), c04TreeCfg.Names)
+		}
+		c.Dst = d
+		h.AlignIdentical(c.Tree, c.Dst, false, 0, 0)
+	}
+	c.Ks = rapid.SliceOfN(rapid.IntRange(0, 1000), 2, 6).Draw(t, "ks")
+	return c
+}
+
+type recvProcArg struct {
+	Dest string `json:"dest"`
+}
+
+// recvProcMain is the receiving process: Receive over stdin/stdout.
+func recvProcMain() int {
+	var a recvProcArg
+	if err := json.Unmarshal([]byte(os.Getenv("VERIF_HELPER_ARG")), &a); err != nil {
+		fmt.Fprintln(os.Stderr, "bad arg:", err)
+		return 3
+	}
+	st := &h.PipeStream{Ctx: context.Background(), R: os.Stdin, W: os.Stdout}
+	if err := fsutil.Receive(context.Background(), st, a.Dest, fsutil.ReceiveOpt{}); err != nil {
+		fmt.Fprintln(os.Stderr, "receive:", err)
+		return 1
+	}
+	return 0
+}
+
+// c04KillRun runs Send in this process against a receiving sub-process that is
+// SIGKILLed right before the sender's k-th SendMsg (k <= 0: never).
+func c04KillRun(tree *h.Tree, dest string, k int) (sendErr error, sent int, stuck string, childExit error, err error) {
+	exe, err := os.Executable()
+	if err != nil {
+		return nil, 0, "", nil, err
+	}
+	arg, _ := json.Marshal(recvProcArg{Dest: dest})
+	cmd := exec.Command(exe)
+	cmd.Env = append(os.Environ(), "VERIF_HELPER=recvproc", "VERIF_HELPER_ARG="+string(arg))
+	toChild, err := cmd.StdinPipe()
+	if err != nil {
+		return nil, 0, "", nil, err
+	}
+	fromChild, err := cmd.StdoutPipe()
+	if err != nil {
+		return nil, 0, "", nil, err
+	}
+	var stderr limitedBuf
+	cmd.Stderr = &stderr
+	if err := cmd.Start(); err != nil {
+		return nil, 0, "", nil, err
+	}
+	st := &h.PipeStream{Ctx: context.Background(), R: fromChild, W: toChild}
+	if k > 0 {
+		st.BeforeSend = func(n int) {
+			if n == k {
+				cmd.Process.Kill()
+				cmd.Process.Wait() // the kernel has closed the child's pipe ends when this returns
+			}
+		}
+	}
+	done := make(chan struct{})
+	go func() {
+		sendErr = fsutil.Send(context.Background(), st, &h.MemFS{T: tree, LinkSizeFull: true}, nil)
+		toChild.Close() // the transport model: the stream ends when the call returns
+		close(done)
+	}()
+	stuck = h.WaitOrStuck(done, nil)
+	if stuck != "" {
+		cmd.Process.Kill()
+		toChild.Close()
+		fromChild.Close()
+		select {
+		case <-done:
+		case <-time.After(5 * time.Second):
+		}
+	}
+	childExit = cmd.Wait()
+	return sendErr, int(st.Sent), stuck, childExit, nil
+}
+
+func c04KillCheck(env *h.Env, c *c04KillCase) error {
+	tree := c04Tree(&c04Case{Tree: c.Tree, Many: c.Many})
+	mk := func(name string) (string, error) {
+		d := filepath.Join(env.Scratch, name)
+		if err := os.Mkdir(d, 0o755); err != nil {
+			return "", h.Infra(err)
+		}
+		if c.Dst != nil {
+			if err := h.Materialise(c.Dst, d); err != nil {
+				return "", h.Infra(err)
+			}
+		}
+		return d, nil
+	}
+	d0, err := mk("k0")
+	if err != nil {
+		return err
+	}
+	before0, _ := h.Snapshot(d0)
+	sendErr, total, stuck, childExit, err := c04KillRun(tree, d0, 0)
+	if err != nil {
+		return h.Infra(err)
+	}
+	if stuck != "" || sendErr != nil || childExit != nil {
+		return fmt.Errorf("fault-free transfer to a receiving sub-process failed: send=%v child=%v stuck=%v", sendErr, childExit, stuck != "")
+	}
+	after0, err := h.Snapshot(d0)
+	if err != nil {
+		return h.Infra(err)
+	}
+	if errs := convergenceErrs(after0, before0, tree, 0); errs.Len() > 0 {
+		return fmt.Errorf("fault-free transfer to a receiving sub-process: %v", errs.Err())
+	}
+	seen := map[int]bool{}
+	for i, pm := range c.Ks {
+		k := 1 + pm*(total-1)/1000
+		if seen[k] {
+			continue
+		}
+		seen[k] = true
+		d, err := mk(fmt.Sprintf("k%d", i+1))
+		if err != nil {
+			return err
+		}
+		sendErr, sent, stuck, _, err := c04KillRun(tree, d, k)
+		if err != nil {
+			return h.Infra(err)
+		}
+		what := fmt.Sprintf("receiver process killed before the sender's packet %d of %d (%d entries)", k, total, len(tree.Nodes))
+		if stuck != "" {
+			return fmt.Errorf("%s: Send never returned; blocked goroutines:\n%s", what, stuck)
+		}
+		if sendErr == nil {
+			return fmt.Errorf("%s: Send returned success although the receiver never acknowledged completion (%d packets sent)", what, sent)
+		}
+		env.R.CountN(1, 1, "sigkill-run")
+		// a later fault-free transfer into whatever the killed run left behind converges
+		leftover, err := h.Snapshot(d)
+		if err != nil {
+			return h.Infra(err)
+		}
+		res := h.RunSync(&h.MemFS{T: tree, LinkSizeFull: true}, d, h.SyncOpt{Capacity: 8})
+		if res.Stuck != "" {
+			return fmt.Errorf("%s: the follow-up transfer is stuck:\n%s", what, res.Stuck)
+		}
+		if res.SendErr != nil || res.RecvErr != nil {
+			return fmt.Errorf("%s: the follow-up transfer into the leftovers failed: send=%v recv=%v", what, res.SendErr, res.RecvErr)
+		}
+		after, err := h.Snapshot(d)
+		if err != nil {
+			return h.Infra(err)
+		}
+		if errs := convergenceErrs(after, leftover, tree, 0); errs.Len() > 0 {
+			return fmt.Errorf("%s: the follow-up transfer did not converge: %v", what, errs.Err())
+		}
+		h.RemoveAllForce(d)
+	}
+	env.NonTrivial()
+	env.Class("sigkill-base")
+	return nil
 }
